@@ -47,6 +47,7 @@ func runC05(c *Config, r *Report) {
 	c05R16(ic, r)
 	c05R17(ic, r)
 	c05R18(ic, r)
+	c05R19(ic, r)
 	c04R20(ic, r, "R05.15")
 	c05R11(ic, r)
 	c05R3(ic, r)
@@ -1443,5 +1444,86 @@ func c05R18(ic *IC, r *Report) {
 	}
 	if n < 2 {
 		r.Errorf("R05.18: only %d recursive loops over the fields found in the look-up functions of itype", n)
+	}
+}
+
+func init() {
+	ruleText["R05.19"] = "a composite literal is not built in place of a destination whose type is an interface of a compiled package, the predeclared error included: in the assignStmt/defineStmt case of cfg, the branch that lets a literal take the location of its destination (the one whose condition tests aCompositeLit) leaves that shortcut under a condition that calls isInterfaceBin (which covers error), or that tests the errorT category next to the valueT one - the literal is a struct, the slot an interface: the assignment must wrap it"
+}
+
+// c05R19: D139 (round-7 report on C05, D09/D10). `var e error; e = MyErr{2}` panicked.
+func c05R19(ic *IC, r *Report) {
+	info := ic.Info
+	cfgFn := ic.fn(r, "Interpreter.cfg")
+	if cfgFn == nil {
+		return
+	}
+	n := 0
+	ast.Inspect(cfgFn.Decl.Body, func(q ast.Node) bool {
+		br, ok := q.(*ast.CaseClause)
+		if !ok || len(br.List) != 1 {
+			return true
+		}
+		lit := false
+		ast.Inspect(br.List[0], func(z ast.Node) bool {
+			if id, ok := z.(*ast.Ident); ok {
+				if c, ok := info.Uses[id].(*types.Const); ok && c.Name() == "aCompositeLit" {
+					lit = true
+				}
+			}
+			return true
+		})
+		if !lit {
+			return true
+		}
+		// the shortcut: the source takes the destination's frame index in this branch
+		findexFld := ic.field("node", "findex")
+		takes := false
+		for _, st := range br.Body {
+			if as, ok := st.(*ast.AssignStmt); ok && len(as.Lhs) == 1 && len(as.Rhs) == 1 {
+				l, okl := unparen(as.Lhs[0]).(*ast.SelectorExpr)
+				rr, okr := unparen(as.Rhs[0]).(*ast.SelectorExpr)
+				if okl && okr && selField(info, l) == findexFld && selField(info, rr) == findexFld {
+					takes = true
+				}
+			}
+		}
+		if !takes {
+			return true
+		}
+		n++
+		ok = false
+		for _, st := range br.Body {
+			ifs, isIf := st.(*ast.IfStmt)
+			if !isIf {
+				continue
+			}
+			leaves := false
+			for _, b := range ifs.Body.List {
+				if bs, ok := b.(*ast.BranchStmt); ok && bs.Tok == token.BREAK {
+					leaves = true
+				}
+			}
+			if !leaves {
+				continue
+			}
+			if len(callsIn(info, ifs.Cond, true, "interp.isInterfaceBin", "interp.isInterface")) > 0 {
+				ok = true
+			}
+			ast.Inspect(ifs.Cond, func(z ast.Node) bool {
+				if id, isId := z.(*ast.Ident); isId {
+					if c, isC := info.Uses[id].(*types.Const); isC && c.Name() == "errorT" {
+						ok = true
+					}
+				}
+				return true
+			})
+		}
+		r.Check(ok, "R05.19", fmt.Sprintf("cfg/case:assignStmt/literal-in-place#%d/not-for-compiled-interfaces-nor-error", n), ic.pos(br.Pos()), "the shortcut is left for a destination of a compiled interface type or of type error",
+			"the branch of the assignStmt/defineStmt case of cfg that builds a composite literal at the location of its destination is not left for a destination of type error (only, at most, for interface types of compiled packages): the literal - a struct - is stored into a slot of type error, `var e error; e = MyErr{2}` panics (reflect.Set: value of type struct { ... } is not assignable to type error) and `var e error = MyErr{3}; e.Error()` fails with Method index out of range")
+		return true
+	})
+	if n == 0 {
+		r.Errorf("R05.19: the branch of the assign case that builds a composite literal in place was not found")
 	}
 }
